@@ -317,3 +317,48 @@ def wire(ctx):
     from . import c13
     c13.restricted(ctx, r'(dimension::Attribute|dimension::Dimension|AccessStructure|core::MasterSecretKey|core::RightSecretKey)$',
                    [c13.agree, c13.fields, c13.order])
+
+
+FLAG_READERS = {
+    'core::MasterSecretKey::mpk': 'decides what is published',
+    'core::primitives::full_decaps': 'the master key only re-opens rights it can still publish',
+    'core::primitives::rekey': 'copies the flag of the current newest secret to the new one',
+    'core::serialization::<impl cosmian_crypto_core::bytes_ser_de::Serializable for core::MasterSecretKey>::write': 'wire',
+    'core::serialization::<impl cosmian_crypto_core::bytes_ser_de::Serializable for core::MasterSecretKey>::length': 'wire',
+}
+
+
+def check_flag_readers(ctx, F):
+    """Who may read the activation flag.  Deactivation only stops *publication*: key generation, refresh, pruning and
+    decapsulation must not look at the flag, otherwise disabled attributes stop being decryptable / refreshable or
+    unrelated keys silently lose rights."""
+    seen = set()
+    n = 0
+    for (body, b, ln, base) in flags.flag_reads(F):
+        root = body.root or body.key
+        n += 1
+        if root in seen:
+            continue
+        seen.add(root)
+        okr = root in FLAG_READERS or any(lib.only_reached_via(F, root, k) for k in ('core::MasterSecretKey::mpk', 'core::primitives::full_decaps'))
+        if root.startswith('<') and ('PartialEq' in root or 'Debug' in root or 'Clone' in root):
+            okr = True
+        ctx.check(okr, root, 'reads the activation flag',
+                  '%s reads the activation flag of a master secret (line %d): only publication (mpk), re-encapsulation (full_decaps), '
+                  'rekey (to carry it over) and serialisation may; key generation, refresh and prune must treat deactivated rights '
+                  'like any other so that they stay decryptable and refreshable' % (body.key, ln), FLAG_READERS.get(root, 'helper of mpk / full_decaps'),
+                  body.where(ln))
+    ctx.floor(n, 3, 'reads of the activation flag')
+
+
+@rule('C06', 'flag-readers', configs=('default', 'p256'))
+def flag_readers(ctx):
+    check_flag_readers(ctx, ctx.F)
+
+
+@rule('C06', 'chain-orientation')
+def chain_orientation(ctx):
+    """The flag written by update_msk through get_latest_mut and the flag read by mpk through front() are the same
+    element only if both are the head of the chain (C04.orientation)."""
+    from . import c04
+    c04.orientation(ctx)
